@@ -300,9 +300,10 @@ func (w *World) settle(activity func() int64, opt Options) {
 		}
 		return true
 	}
-	oc := vlib.WaitCond(cond, activity, opt.Soft, opt.Hard)
+	oc, slow := waitSettled(cond, activity, opt.Soft, opt.Hard)
 	w.mu.Lock()
 	defer w.mu.Unlock()
+	w.Stats["quiet_but_goroutines_still_busy"] += slow
 	describe := func(rr *RR) map[string]interface{} {
 		d := map[string]interface{}{"rr": rr.Idx, "runs": rr.runs, "runs_at_last_write": rr.runsAtMark, "recent_runs": rr.recent,
 			"always_spawn_goroutine": rr.Spec.Spawn}
@@ -359,13 +360,14 @@ func (w *World) awaitCleanups(activity func() int64, opt Options) {
 		}
 		return out
 	}
-	oc := vlib.WaitCond(func() bool {
+	oc, slow := waitSettled(func() bool {
 		w.mu.Lock()
 		defer w.mu.Unlock()
 		return len(missing()) == 0
 	}, activity, opt.Soft, opt.Hard)
 	w.mu.Lock()
 	defer w.mu.Unlock()
+	w.Stats["quiet_but_goroutines_still_busy"] += slow
 	switch oc {
 	case vlib.QuiescentNot:
 		ms := missing()
